@@ -77,6 +77,10 @@ class BackendVSA(Backend):
         self._op_raw["__and__"] = self._op_and
         self._op_raw["__mod__"] = self._op_mod
 
+        # comparisons between truth values
+        self._op_raw["__eq__"] = self._op_eq
+        self._op_raw["__ne__"] = self._op_ne
+
     @staticmethod
     def _op_add(*args):
         return reduce(operator.__add__, args)
@@ -104,6 +108,21 @@ class BackendVSA(Backend):
     @staticmethod
     def _op_mod(*args):
         return reduce(operator.__mod__, args)
+
+    @staticmethod
+    def _op_eq(a, b):
+        if isinstance(a, bool | BoolResult) and isinstance(b, bool | BoolResult):
+            # equality of the truth values, not of the abstract results: two "maybe"s need not agree
+            a = a if isinstance(a, BoolResult) else (TrueResult() if a else FalseResult())
+            b = b if isinstance(b, BoolResult) else (TrueResult() if b else FalseResult())
+            return (a & b) | (~a & ~b)
+        return operator.__eq__(a, b)
+
+    @staticmethod
+    def _op_ne(a, b):
+        if isinstance(a, bool | BoolResult) and isinstance(b, bool | BoolResult):
+            return ~BackendVSA._op_eq(a, b)
+        return operator.__ne__(a, b)
 
     def convert(self, expr):
         return Backend.convert(self, claripy.excavate_ite(expr) if isinstance(expr, Base) else expr)
